@@ -275,7 +275,11 @@ func cmdRace(args []string) {
 		}
 		for _, o := range p.History {
 			if o.Op == "dep" {
-				deps[o.T] = append(deps[o.T], o.D)
+				if len(o.Ds) > 0 {
+					deps[o.T] = append(deps[o.T], o.Ds...)
+				} else {
+					deps[o.T] = append(deps[o.T], o.D)
+				}
 			}
 		}
 		var mu sync.Mutex
@@ -323,7 +327,13 @@ func cmdRace(args []string) {
 			case "add":
 				g.AddTask(tasks[o.T])
 			case "dep":
-				g.TaskDependsOn(tasks[o.T], tasks[o.D])
+				if len(o.Ds) > 0 {
+					for _, d := range o.Ds {
+						g.TaskDependsOn(tasks[o.T], tasks[d])
+					}
+				} else {
+					g.TaskDependsOn(tasks[o.T], tasks[o.D])
+				}
 			case "retries":
 				g.TaskRetries(tasks[o.T], o.R)
 			}
